@@ -131,6 +131,9 @@ Definition no_nl (s : str) : bool := forallb (fun c => negb ((c =? 10) || (c =? 
 Lemma no_nl_app : forall a b, no_nl (a ++ b) = no_nl a && no_nl b.
 Proof. intros. apply forallb_app. Qed.
 
+Lemma no_nl_cons : forall c s, no_nl (c :: s) = negb ((c =? 10) || (c =? 13)) && no_nl s.
+Proof. reflexivity. Qed.
+
 Lemma no_nl_encode : forall s, no_nl (flat_map nt_esc1 s) = true.
 Proof.
   induction s as [|x s IH]; [reflexivity|].
@@ -150,15 +153,17 @@ Proof.
   - intros H. exists c. split; [exact H|apply N.eqb_refl].
 Qed.
 
-(* table facts, re-checked against the reflected tables on every build *)
-Lemma refused_sub_invalid : forall c, mem c uriref_extra_refused = true -> mem c invalid_uri = true.
+(* table facts, re-checked against the reflected tables on every build: everything the reader's IRI pattern refuses
+   after the scheme is refused by the writer too (since fix commit 4d2427e4; before it, the pattern refused all of \s) *)
+Lemma refused_sub_invalid : forall c, mem c uriref_refused = true -> mem c invalid_uri = true.
 Proof.
-  intros c H. apply mem_true_in in H. simpl in H.
+  intros c H. apply mem_true_in in H. unfold uriref_refused in H.
   repeat (destruct H as [<-|H]; [reflexivity|]). destruct H.
 Qed.
-Lemma gt_refused : mem 62 uriref_extra_refused = true. Proof. reflexivity. Qed.
+Lemma gt_refused : mem 62 uriref_refused = true. Proof. reflexivity. Qed.
 Lemma backslash_invalid : mem 92 invalid_uri = true. Proof. reflexivity. Qed.
-Lemma nl_is_space : is_space 10 = true /\ is_space 13 = true. Proof. split; reflexivity. Qed.
+Lemma nl_refused : mem 10 uriref_refused = true /\ mem 13 uriref_refused = true. Proof. split; reflexivity. Qed.
+Lemma nl_invalid : mem 10 invalid_uri = true /\ mem 13 invalid_uri = true. Proof. split; reflexivity. Qed.
 
 Lemma valid_uri_no_backslash : forall u, valid_uri u = true -> forallb (fun c => negb (c =? 92)) u = true.
 Proof.
@@ -175,20 +180,12 @@ Proof.
   destruct (span_spec _ _ _ _ E) as (Hu & Hsch & Hhd).
   destruct scheme as [|s0 scheme]; [discriminate|]. destruct r1 as [|c path]; [discriminate|].
   apply negb_false_iff, N.eqb_eq in Hhd. subst c.
-  apply andb_true_iff in Hrd as [_ Hrest].
-  assert (Hpath : forallb uri_tail_char path = true).
-  { rewrite forallb_forall. intros c Hc. unfold uri_tail_char.
-    rewrite forallb_forall in Hrest. specialize (Hrest c (or_intror Hc)). apply negb_true_iff in Hrest. rewrite Hrest, orb_false_l.
-    unfold valid_uri in Hv. rewrite forallb_forall in Hv.
-    assert (Hin : In c u) by (rewrite Hu; apply in_or_app; right; now right).
-    specialize (Hv c Hin). apply negb_true_iff in Hv.
-    destruct (mem c uriref_extra_refused) eqn:R; [|reflexivity].
-    apply refused_sub_invalid in R. congruence. }
+  apply andb_true_iff in Hrd as [_ Hpath].
   unfold scan_uriref. rewrite N.eqb_refl.
   replace (u ++ 62 :: rest) with ((s0 :: scheme) ++ 58 :: (path ++ 62 :: rest))
     by (rewrite Hu, <- app_assoc; reflexivity).
   rewrite (span_app_stop _ _ 58 _ Hsch) by reflexivity.
-  rewrite (span_app_stop _ _ 62 rest Hpath) by (unfold uri_tail_char; now rewrite gt_refused, orb_true_r).
+  rewrite (span_app_stop _ _ 62 rest Hpath) by (unfold uri_tail_char; now rewrite gt_refused).
   rewrite N.eqb_refl. rewrite Hu. reflexivity.
 Qed.
 
@@ -206,11 +203,31 @@ Lemma iri_no_nl : forall u, iri_readable u = true -> no_nl u = true.
 Proof.
   intros u H. unfold iri_readable in H.
   destruct (span (fun c => negb (c =? 58)) u) as [scheme r1] eqn:E.
-  destruct (span_spec _ _ _ _ E) as (Hu & _ & _). subst u.
+  destruct (span_spec _ _ _ _ E) as (Hu & _ & Hhd). subst u.
   apply andb_true_iff in H as [H1 H2]. rewrite no_nl_app. apply andb_true_iff. split; [exact H1|].
-  unfold no_nl. rewrite forallb_forall in *. intros c Hc. specialize (H2 c Hc).
-  destruct (N.eqb_spec c 10) as [->|]; [now rewrite (proj1 nl_is_space) in H2|].
-  destruct (N.eqb_spec c 13) as [->|]; [now rewrite (proj2 nl_is_space) in H2|]. reflexivity.
+  destruct r1 as [|c path]; [reflexivity|].
+  apply negb_false_iff, N.eqb_eq in Hhd. subst c. rewrite no_nl_cons. change (negb ((58 =? 10) || (58 =? 13))) with true. cbn [andb].
+  unfold no_nl. rewrite forallb_forall in *. intros c Hc. specialize (H2 c Hc). unfold uri_tail_char in H2.
+  apply negb_true_iff in H2.
+  destruct (N.eqb_spec c 10) as [->|]; [now rewrite (proj1 nl_refused) in H2|].
+  destruct (N.eqb_spec c 13) as [->|]; [now rewrite (proj2 nl_refused) in H2|]. reflexivity.
+Qed.
+
+(* since fix commit 4d2427e4: whatever the writer accepts, the reader can take back *)
+Lemma wf_iri_readable : forall u, wf_iri u = true -> iri_readable u = true.
+Proof.
+  intros u H. unfold wf_iri in H. apply andb_true_iff in H as [Hv _]. unfold iri_readable.
+  destruct (span (fun c => negb (c =? 58)) u) as [scheme r1] eqn:E.
+  destruct (span_spec _ _ _ _ E) as (Hu & _ & _). subst u.
+  unfold valid_uri in Hv. rewrite forallb_app in Hv. apply andb_true_iff in Hv as [Hs Hr].
+  apply andb_true_iff. split.
+  - rewrite forallb_forall in *. intros c Hc. specialize (Hs c Hc). apply negb_true_iff in Hs.
+    destruct (N.eqb_spec c 10) as [->|]; [now rewrite (proj1 nl_invalid) in Hs|].
+    destruct (N.eqb_spec c 13) as [->|]; [now rewrite (proj2 nl_invalid) in Hs|]. reflexivity.
+  - destruct r1 as [|c path]; [reflexivity|]. cbn [forallb] in Hr. apply andb_true_iff in Hr as [_ Hp].
+    rewrite forallb_forall in *. intros x Hx. specialize (Hp x Hx). unfold uri_tail_char.
+    apply negb_true_iff in Hp. destruct (mem x uriref_refused) eqn:R; [|reflexivity].
+    apply refused_sub_invalid in R. congruence.
 Qed.
 
 (* ------------------------------------------------------------ K1: blank node labels *)
@@ -537,9 +554,6 @@ Proof.
   - simpl in H. apply andb_true_iff in H as [Hc Ha]. apply negb_true_iff, orb_false_iff in Hc as [H10 H13].
     cbn [app split_lines]. rewrite H10, H13, IH by exact Ha. cbn [rev]. now rewrite <- app_assoc.
 Qed.
-
-Lemma no_nl_cons : forall c s, no_nl (c :: s) = negb ((c =? 10) || (c =? 13)) && no_nl s.
-Proof. reflexivity. Qed.
 
 Lemma node_no_nl : forall n, wf_node n = true -> node_readable n = true -> no_nl (n3_node n) = true.
 Proof.
